@@ -44,6 +44,9 @@ type C11ConnScript struct {
 	Partial      bool   `json:"partial"`                 // responses are sent in two steps
 	MaxStreams   int64  `json:"max_streams"`
 	Silent       bool   `json:"silent"` // never answers (MaxResponseTime must end the requests)
+	// StallAfterReqs: once that many request streams have arrived the server stops reading for good, and the link holds
+	// next to nothing (the client's next write parks in the transport)
+	StallAfterReqs int `json:"stall_after_reqs,omitempty"`
 	// GoAwayRBit: the reserved bit in front of last-stream-id is set (a receiver must ignore it, RFC 7540 6.8)
 	GoAwayRBit bool `json:"goaway_rbit,omitempty"`
 }
@@ -451,7 +454,14 @@ func (w *C11World) EnvActions() []Action {
 				w.Probes["stall-c2s"]++
 			}})
 		}
-		if c.stalled && w.phase >= 1 && w.sim.Now() >= c.stalledAt+w.stallFor() {
+		if c.script.StallAfterReqs > 0 && !c.stallDone && !c.killed && w.phase == 0 && len(c.streams) >= c.script.StallAfterReqs {
+			acts = append(acts, Action{Name: "stall-for-good c" + itoa(c.idx), Env: true, Weight: 20, Run: func() {
+				c.stalled, c.stallDone, c.stalledAt = true, true, w.sim.Now()
+				c.a2b.Cap = 64
+				w.Probes["stall-c2s-for-good"]++
+			}})
+		}
+		if c.stalled && c.script.StallAfterReqs == 0 && w.phase >= 1 && w.sim.Now() >= c.stalledAt+w.stallFor() {
 			acts = append(acts, Action{Name: "unstall c" + itoa(c.idx), Env: true, Weight: 20, Run: func() { c.stalled = false }})
 		}
 		if n := len(c.a2b.Inflight); n > 0 && !c.a2b.cutDone && !c.stalled {
@@ -859,6 +869,25 @@ func GenC11Timed(r *RNG) *C11Plan {
 	return p
 }
 
+// GenC11ManyTimeouts: more requests than the client's queue of outgoing control frames has slots (128) wait on one
+// connection for a server that has stopped reading; every one of them has a response timer, and every one has to come
+// back when it fires, whatever the state of the queue its RST_STREAM goes into.
+func GenC11ManyTimeouts(r *RNG) *C11Plan {
+	p := &C11Plan{Family: "c11-many-timeouts", MaxResponseTime: time.Second, PingInterval: time.Hour}
+	n := 135 + r.Intn(40)
+	for k := 0; k < n; k++ {
+		p.Reqs = append(p.Reqs, C11Req{Method: "GET", StartAfter: -1})
+	}
+	p.Conns = []C11ConnScript{{MaxStreams: 1000, Silent: true, StallAfterReqs: n}}
+	p.Mask = []string{"atomic", "prelock", "net", "yield"}
+	p.PoolPol = r.Intn(3)
+	p.Strategy = genStrategy(r)
+	p.Strategy.Stay = Pick(r, 0.9, 0.97)
+	p.SelSeed = r.Uint64()
+	p.MaxSteps = 1500000
+	return p
+}
+
 func RunC11(plan *C11Plan, tape *Tape, searchSeed uint64) *RunResult {
 	res := &RunResult{Property: "C11", Family: plan.Family}
 	sim := NewSim(tape, NewRNG(searchSeed))
@@ -936,7 +965,7 @@ func RunC11(plan *C11Plan, tape *Tape, searchSeed uint64) *RunResult {
 			nGA++
 		}
 	}
-	res.Nontrivial = nGA > 0 || w.Probes["refused"] > 0 || w.Probes["kill"] > 0 || (plan.Family == "c11-timed" && sim.TimeJumps > 3)
+	res.Nontrivial = nGA > 0 || w.Probes["refused"] > 0 || w.Probes["kill"] > 0 || (plan.Family == "c11-timed" && sim.TimeJumps > 3) || (plan.Family == "c11-many-timeouts" && w.Probes["stall-c2s-for-good"] > 0)
 	res.Probes = w.Probes
 	res.Summary = fmt.Sprintf("conns=%d callers=%d", len(w.conns), len(w.callers))
 	sim.finish(res)
